@@ -1,8 +1,15 @@
-(* Acknowledgement layer on top of the engine: server/replication.go ReplicationAckDB.ProcessLeaderPushLock /
-   ProcessLeaderAofed / ProcessLeaderAcked / SwitchToFollower (1658-1777, 1893-1904) driving LockDB.DoAckLock.
+(* Acknowledgement layer on top of the engine: server/replication.go ReplicationManager.PushLock (2196-2215),
+   ReplicationAckDB.ProcessLeaderPushLock / ProcessLeaderPushUnLock / ProcessLeaderAofed / ProcessLeaderAcked
+   (1663-1777) driving LockDB.DoAckLock.
    An AOF LOCK record that carries a lock pointer (command has the require-ack flag) is *registered*: the layer stores
    (RequestId -> record id, record id -> lock) and writes `lock.ackCount := ackCount`; every later acknowledgement event
-   for that record (the leader's own flush "aofed" or a follower's "acked" - one shared counter) decrements it. *)
+   for that record (the leader's own flush "aofed" or a follower's "acked" - one shared counter) decrements it.
+   An AOF UNLOCK record that carries a lock pointer (the hold was timed out, expired, unlocked or rolled back) drops
+   the registration made under the RequestId of the lock's command and runs DoAckLock(lock, false).
+   The two tables of the Go code (commandAofs : RequestId -> record id, aofLocks : record id -> lock) are one list
+   here: they are written and deleted together everywhere except that ProcessLeaderAofed / Acked delete
+   commandAofs under the RequestId the lock carries at that moment -- the same one as long as the registered record
+   is allocated and keeps its command (`reg_sound`, Engine/AckProofsUnreg.v). *)
 From Coq Require Import String.
 From Slock Require Import Engine.Types Engine.Queues Engine.Timers Engine.Engine Engine.Engine2.
 Open Scope N_scope.
@@ -38,7 +45,38 @@ Definition register (st : astate) (r : ref) : astate * list event :=
     (mkA (updl s r (fun l => l <| l_ack := a_cfg st |>)) (a_cfg st) (a_reg st ++ [(i, (q, r))]) (a_next st), [])
   end.
 
-(* registrations for the lock-carrying LOCK records of an event list, in queue order; a failed registration runs
+Fixpoint reg_find (reg : list (N * (N * ref))) (i : N) : option (N * ref) :=
+  match reg with
+  | [] => None
+  | (j, v) :: rest => if j =? i then Some v else reg_find rest i
+  end.
+Definition reg_del (reg : list (N * (N * ref))) (i : N) := filter (fun x => negb (fst x =? i)) reg.
+
+(* commandAofs[RequestId]: the registration made under that RequestId (its index and the lock it was made for) *)
+Fixpoint reg_find_req (reg : list (N * (N * ref))) (q : N) : option (N * ref) :=
+  match reg with
+  | [] => None
+  | (i, (q', r)) :: rest => if q' =? q then Some (i, r) else reg_find_req rest q
+  end.
+
+(* ProcessLeaderPushUnLock for an UNLOCK record carrying lock r (written by doTimeOut / doExpried / UnLock /
+   DoAckLock(false) for a hold whose command has the require-ack flag): the lookup is by the RequestId the lock's
+   command carries NOW (`lock.command.RequestId`); a released object (`lock.command == nil`) is ignored.  When a
+   registration exists under that RequestId -- whichever lock it was made for -- both of its table entries go
+   (commandAofs[RequestId], aofLocks[its record id]) and DoAckLock(lock, false) runs on the RECORD's lock. *)
+Definition unregister (st : astate) (r : ref) : astate * list event :=
+  let s := a_db st in
+  match aget (store s) r with None => (st, []) | Some l =>
+  match reg_find_req (a_reg st) (c_req (l_cmd l)) with
+  | None => (st, [])
+  | Some (i, _) =>
+      let '(s', ev) := finish (do_ack s r false) in
+      (mkA s' (a_cfg st) (reg_del (a_reg st) i) (a_next st), ev)
+  end end.
+
+(* ReplicationManager.PushLock for the records of an event list, in queue order: a record carrying a lock pointer
+   (command has the require-ack flag) is handled by the ack DB while this node is the leader -- LOCK records are
+   registered, UNLOCK records drop the registration; a failed registration / a dropped registration runs
    DoAckLock(false), whose own events are appended to the output and whose records are processed in turn *)
 Fixpoint post_go (fuel : nat) (st : astate) (todo : list event) (acc : list event) : astate * list event :=
   match fuel with
@@ -47,9 +85,13 @@ Fixpoint post_go (fuel : nat) (st : astate) (todo : list event) (acc : list even
       match todo with
       | [] => (st, acc)
       | EAof a :: rest =>
-          match a_lock a, a_ref a with
-          | true, Some r => let '(st1, e1) := register st r in post_go f st1 (rest ++ e1) (acc ++ e1)
-          | _, _ => post_go f st rest acc
+          match a_ref a with
+          | Some r =>
+              if leader (a_db st) then
+                let '(st1, e1) := if a_lock a then register st r else unregister st r in
+                post_go f st1 (rest ++ e1) (acc ++ e1)
+              else post_go f st rest acc
+          | None => post_go f st rest acc
           end
       | _ :: rest => post_go f st rest acc
       end
@@ -58,13 +100,6 @@ Fixpoint post_go (fuel : nat) (st : astate) (todo : list event) (acc : list even
 Definition with_post (st : astate) (res : db * list event) : astate * list event :=
   let '(s, ev) := res in
   post_go (4 * length ev + 64)%nat (mkA s (a_cfg st) (a_reg st) (a_next st)) ev ev.
-
-Fixpoint reg_find (reg : list (N * (N * ref))) (i : N) : option (N * ref) :=
-  match reg with
-  | [] => None
-  | (j, v) :: rest => if j =? i then Some v else reg_find rest i
-  end.
-Definition reg_del (reg : list (N * (N * ref))) (i : N) := filter (fun x => negb (fst x =? i)) reg.
 
 (* ProcessLeaderAofed / ProcessLeaderAcked (identical bodies): one acknowledgement event for registration i *)
 Definition ack_event (st : astate) (i : N) (ok : bool) : astate * list event :=
